@@ -5,7 +5,11 @@ mod c01;
 mod c02;
 mod c03;
 mod c04;
+mod c07;
+mod c09;
 mod c11;
+mod c12;
+mod c15;
 mod scripts;
 
 use std::path::PathBuf;
@@ -34,7 +38,7 @@ pub struct PropDef {
 }
 
 fn props() -> Vec<PropDef> {
-    vec![c01::DEF, c02::DEF, c03::DEF, c04::DEF, c11::DEF, scripts::C05, scripts::C06, scripts::C16]
+    vec![c01::DEF, c02::DEF, c03::DEF, c04::DEF, c07::C07, c07::C08, c09::DEF, c11::DEF, c12::DEF, c15::DEF, scripts::C05, scripts::C06, scripts::C16]
 }
 
 fn main() {
